@@ -169,7 +169,7 @@ def run(prog: Program, rep: Report, tier: str) -> None:
         "tracker's margins and the body of clip, the level range from the branches of z2s_kernel."
     )
     rep.assumptions = [
-        "A1: every particle in the state lies in the valid region (C09 invariant; release positions valid)",
+        "A1: every particle in the state lies in the valid region - inductive: release positions valid (assumed), preserved by Tracker.update (R17.4, shared with C09)",
         "A2: forcing files have as many levels as the grid (shapes use one symbol kmax)",
         "A3: at least two levels (kmax >= 2) - not enforced at start-up, see the known finding",
         "Lemma L1 (C09 R09.1): the land test in Tracker.update only sees restored positions or in-grid candidates",
@@ -179,6 +179,15 @@ def run(prog: Program, rep: Report, tier: str) -> None:
     rep.rule("R17.1", "every subscript of a gridded array reached from the model's entry points is within bounds on every axis", 60)
     rep.rule("R17.2", "facts derived from the source: block shapes, valid region inside the velocity domain, stage margins inside it, level range", 8)
     rep.rule("R17.3", "assumption audit: the level-count assumption is enforced at start-up", 1)
+    rep.rule("R17.4", "assumption A1 discharged: the tracker stores a position only if it lies in the valid region, else the old one (C09's case analysis, writers and region rules)", 20)
+    from . import c09
+
+    sub = Report(pid="C17")
+    c09.case_analysis(prog, sub)
+    c09.writers(prog, sub)
+    c09.region_definitions(prog, sub)
+    for o in sub.obligations:
+        rep.add("R17.4", o.func, f"[{o.rule}] {o.construct}", o.verdict == "ok" if o.verdict != "undecided" else None, o.what, o.loc)
     dom, it, entries, info = analyse(prog)
     facts = info["facts"]
     # R17.2 derived facts
